@@ -68,6 +68,17 @@ def run_script(case):
         counter = [0]
 
         def do(step):
+            try:
+                return do_(step)
+            except Failure:
+                raise
+            except Exception as exc:  # noqa - nothing a connection does may surface in device or peer code
+                raise Failure(
+                    f"fault-escapes-into-{'device' if step['s'].startswith('dev') else 'another-connection'}:{type(exc).__name__}",
+                    f"{case['conns']} victim={case['victim']} fault={case['fault']} at={case['at']}: step {step} raised {type(exc).__name__}: {exc}",
+                )
+
+        def do_(step):
             c = peers[step.get("c", 0) % nconn]
             t = step["s"]
             if t == "hs":
